@@ -7,7 +7,7 @@ import PlinioVerif.Model.SuperNet
 `out||a` (arguments are node numbers) answers
 
 `ok win=[<combiner>|k,…] nodes=[…surviving nodes, renumbered…] mods=[…surviving module names…]
- plain=<0|1> sim=<0|1> out=<hash> hyp=<0|1> pure=<0|1>`
+ plain=<0|1> sim=<0|1> out=<hash> hyp=<0|1>`
 
 (`plain`: no choice node left; `sim`: every surviving node has the value it has in the hard
 evaluation of the SuperNet, for the structural-hash leaf semantics; `out`: that hash of the output)
@@ -19,8 +19,7 @@ runs the op sequence (alpha written / hard switched / temperature updated / forw
 combiner states and answers `win=[<combiner>|k,…] sampled=[<combiner>|k or ?,…] hard=[…]`: the branch
 `export()` selects afterwards (arg-max of the *current* alpha), the position of the largest entry
 of `theta_alpha` (`?` after Gumbel noise) and the hard flags.  `hyp`: the traced graph satisfies the hypotheses of the
-C03 theorems (`WF`, `IOSane`, `Discipline`, the last node is the `output`); `pure`: `PureLeaves` (no
-function fx regards as impure — `fni|…` nodes — in the graph). -/
+C03 theorems (`WF`, `IOSane`, `WinInRange`, the last node is the `output`). -/
 open PlinioVerif PlinioVerif.Proto PlinioVerif.SuperNet
 
 def parseArgs? (s : String) : Option (List Nat) :=
@@ -104,7 +103,7 @@ def handle (line : String) : String :=
           (field? toks "nodes").bind (parseList? parseNode?) with
     | some alpha, some mods, some g =>
       let win := winners alpha
-      let hyp := s!"hyp={showBool (wfB g && ioSaneB g && disciplineB win g && (Graph.nd g (g.length - 1)).op == Op.output)}"
+      let hyp := s!"hyp={showBool (wfB g && ioSaneB g && winInRangeB win g && (Graph.nd g (g.length - 1)).op == Op.output)}"
       match exportGraph win g with
       | none => s!"err {hyp}"
       | some g' =>
@@ -115,7 +114,7 @@ def handle (line : String) : String :=
         let v := hardEval hashEnv win g
         let v' := hardEval hashEnv (fun _ => 0) g'
         let sim := (List.range g'.length).all fun i => !(g'.nd i).live || v.getD i 0 == v'.getD i 0
-        s!"ok win={ws} nodes={ns} mods={ms} plain={showBool plain} sim={showBool sim} out={netOut hashEnv win g} {hyp} pure={showBool (pureLeavesB g)}"
+        s!"ok win={ws} nodes={ns} mods={ms} plain={showBool plain} sim={showBool sim} out={netOut hashEnv win g} {hyp}"
     | _, _, _ => "bad-request"
   | some "history" =>
     match (field? toks "st").bind (parseList? parseCombSt?),
